@@ -458,15 +458,17 @@ structure Observed where
 
 def hasRow (rows : List OptRow) (n : Str) : Bool := rows.any (fun r => decide (r.name = n))
 
-/-- the row that describes the option: `name` at top level, `sub:name` in a subproject; a builtin option without
-per-subproject row is described by the global row, a `build.` option without row of its own by the host row -/
+/-- the row that describes the option a project read.  A project is addressed as `<project>:<name>`, the top-level
+project by the empty name (`:<name>`): such a row holds the value of an override for that project alone.  Without such
+a row a builtin option is described by the global row `<name>`; a project option of the top-level project is listed as
+`<name>`; a `build.` option without row of its own (native build) by the host row. -/
 def rowNameFor (rows : List OptRow) (o : Observed) : Str :=
-  if o.sub.isEmpty then
-    -- `build.<opt>` in a native build: the build machine is the host machine, there is no separate row
-    if o.builtin && startsWith o.name "build.".toList && !hasRow rows o.name then o.name.drop 6 else o.name
-  else
-    let q := o.sub ++ ':' :: o.name
-    if o.builtin && !hasRow rows q then o.name else q
+  let q := o.sub ++ ':' :: o.name
+  if o.builtin then
+    if hasRow rows q then q
+    else if startsWith o.name "build.".toList && !hasRow rows o.name then o.name.drop 6
+    else o.name
+  else if o.sub.isEmpty then o.name else q
 
 /-- every observed option is listed, and every row of that name shows the value get_option() returned -/
 def AgreesOption (rows : List OptRow) (o : Observed) : Prop :=
